@@ -12,6 +12,9 @@ package responsemanager
 //@   safety off
 //@   modifies inProgressResponseStatus.traverser, inProgressResponseStatus.state, alloc, Budget.NodeBudget, Budget.LinkBudget
 //@   watch globalMax: rm.maxLinksPerRequest
+//@   -- C23: a task is handed out only for a tracked response, which is Running from then on
+//@   ensures !result.Empty ==> requestID in rm.inProgressResponses && rm.inProgressResponses[requestID].state == graphsync.Running
+//@   ensures result.Empty ==> (forall k graphsync.RequestID :: k in rm.inProgressResponses ==> rm.inProgressResponses[k].state == old(rm.inProgressResponses[k].state))
 //@   callsite TraversalBuilder.Start: assert
 //@        let g := rm.maxLinksPerRequest :: let r := response.maxLinks ::
 //@        let eff := ite(g == 0, r, ite(r != 0 && r < g, r, g)) ::
@@ -130,6 +133,9 @@ package responsemanager
 //@   -- C23/C21: a finished task is ALWAYS reported done to the queue (whatever became of its response), exactly once
 //@   ensures nTaskDone == old(nTaskDone) + 1
 //@   callsite TaskQueue.TaskDone: assert $p == p && $task == task
+//@   -- C23: ... and its response, if still tracked, is left neither Running nor Queued (it is in neither list of the queue now)
+//@   ensures task.Topic in rm.inProgressResponses ==>
+//@           (rm.inProgressResponses[task.Topic].state == graphsync.Paused || rm.inProgressResponses[task.Topic].state == graphsync.CompletingSend)
 
 //@ -- C05: outcome notifications come from message notifications: completed listeners exactly when a TERMINAL status was
 //@ -- sent, after the request has been retired; a failed send closes the request with a network error
@@ -143,3 +149,34 @@ package responsemanager
 
 //@ -- ============================ C23 / C21: recorded state moves together with the task queue ============================
 //@ -- a finished task is ALWAYS reported done to the queue (whatever became of its response), exactly once
+
+//@ -- ============================ C23: what PeerState reports is exactly the recorded state and the queue's lists ============================
+//@ transparent peertracker.PeerTrackerTopics
+//@ func fromPeerTopics
+//@   lenient
+//@   safety off
+//@   ensures pt == nil ==> len(result.Active) == 0 && len(result.Pending) == 0
+//@   ensures pt != nil ==> len(result.Active) == len(pt.Active) && len(result.Pending) == len(pt.Pending)
+//@   ensures pt != nil ==> (forall i int :: 0 <= i && i < len(pt.Active) ==> result.Active[i] == pt.Active[i])
+//@   ensures pt != nil ==> (forall i int :: 0 <= i && i < len(pt.Pending) ==> result.Pending[i] == pt.Pending[i])
+//@   loop 1 invariant len(active) == idx1 && (forall i int :: 0 <= i && i < idx1 ==> active[i] == pt.Active[i])
+//@   loop 2 invariant len(active) == len(pt.Active) && (forall i int :: 0 <= i && i < len(pt.Active) ==> active[i] == pt.Active[i])
+//@   loop 2 invariant len(pending) == idx2 && (forall i int :: 0 <= i && i < idx2 ==> pending[i] == pt.Pending[i])
+//@ -- the reported states are exactly the recorded states of this peer's responses
+//@ func ResponseManager.peerState.func1
+//@   lenient
+//@   safety off
+//@   modifies alloc
+//@   ensures forall k graphsync.RequestID :: (k in peerState.RequestStates) <==> (k in rm.inProgressResponses && rm.inProgressResponses[k].peer == p)
+//@   ensures forall k graphsync.RequestID :: k in peerState.RequestStates ==> peerState.RequestStates[k] == rm.inProgressResponses[k].state
+//@   loop 1 invariant forall k graphsync.RequestID :: (k in requestStates) <==> (seen1[k] && rm.inProgressResponses[k].peer == p)
+//@   loop 1 invariant forall k graphsync.RequestID :: k in requestStates ==> requestStates[k] == rm.inProgressResponses[k].state
+
+//@ -- C23: an empty task (response gone or already completing) is reported done at once; a real one stays active in the queue
+//@ func ResponseManager.startTask
+//@   lenient
+//@   safety off
+//@   modifies inProgressResponseStatus.traverser, inProgressResponseStatus.state, alloc, Budget.NodeBudget, Budget.LinkBudget, nTaskDone
+//@   ensures result.Empty <==> (nTaskDone == old(nTaskDone) + 1)
+//@   ensures !result.Empty ==> nTaskDone == old(nTaskDone) && task.Topic in rm.inProgressResponses && rm.inProgressResponses[task.Topic].state == graphsync.Running
+//@   callsite TaskQueue.TaskDone: assert $p == p && $task == task
